@@ -222,6 +222,9 @@ func c15Symlink(p *an.Prog, r *an.R) {
 		di := dd.Pkg.TypesInfo
 		check := func(val ast.Expr, pos token.Pos) {
 			nW++
+			if dd := defOf(di, dd.Decl.Body, val); dd != nil {
+				val = dd // routed through a single-definition local
+			}
 			// mode&os.ModeSymlink != 0  (mode from info.Mode())
 			ok := false
 			if be, isB := ast.Unparen(val).(*ast.BinaryExpr); isB && be.Op == token.NEQ {
@@ -385,6 +388,33 @@ func c15Content(p *an.Prog, r *an.R) {
 // c15ReadSource names the read a definition comes from ("" if none).
 func c15ReadSource(info *types.Info, body *ast.BlockStmt, rhs ast.Expr) string {
 	e := ast.Unparen(rhs)
+	// a single-definition local holding the result of the read (`data, err := os.ReadFile(..); content = data`)
+	if id, ok := e.(*ast.Ident); ok {
+		obj := info.ObjectOf(id)
+		var call ast.Expr
+		n := 0
+		ast.Inspect(body, func(m ast.Node) bool {
+			as, ok := m.(*ast.AssignStmt)
+			if !ok {
+				return true
+			}
+			for k, l := range as.Lhs {
+				if isIdentOf(info, l, obj) {
+					n++
+					if len(as.Rhs) == 1 && k == 0 {
+						call = as.Rhs[0]
+					} else if len(as.Rhs) == len(as.Lhs) {
+						call = as.Rhs[k]
+					}
+				}
+			}
+			return true
+		})
+		if n == 1 && call != nil && ast.Unparen(call) != e {
+			return c15ReadSource(info, body, call)
+		}
+		return ""
+	}
 	// []byte(target) with target from os.Readlink
 	if c, ok := e.(*ast.CallExpr); ok && len(c.Args) == 1 {
 		if tv, ok := info.Types[c.Fun]; ok && tv.IsType() {
@@ -460,20 +490,14 @@ func c15Members(p *an.Prog, r *an.R) {
 				return tv.Value != nil && (tv.Value.ExactString() == "48" || tv.Value.ExactString() == "0")
 			}
 			guarded := g.GuardedBy(l, func(cond ast.Expr, truth bool) bool {
+				// an atom that pins the type flag to a regular-file flag: `tf == Reg` taken true, `tf != Reg` taken false
+				// (compound conditions are decomposed by the engine: a disjunction of such atoms taken true, or a
+				// conjunction of their negations taken false, establishes the fact)
 				be, ok := ast.Unparen(cond).(*ast.BinaryExpr)
-				if !ok {
+				if !ok || !((be.Op == token.EQL && truth) || (be.Op == token.NEQ && !truth)) {
 					return false
 				}
-				// whole condition `tf != Reg && tf != RegA` taken false, or an atom `tf == Reg` taken true
-				if be.Op == token.LAND && !truth {
-					a, okA := ast.Unparen(be.X).(*ast.BinaryExpr)
-					b, okB := ast.Unparen(be.Y).(*ast.BinaryExpr)
-					return okA && okB && a.Op == token.NEQ && b.Op == token.NEQ && isReg(a.Y) && isReg(b.Y) && strings.HasSuffix(types.ExprString(a.X), "Typeflag") && strings.HasSuffix(types.ExprString(b.X), "Typeflag")
-				}
-				if be.Op == token.EQL && truth {
-					return isReg(be.Y) && strings.HasSuffix(types.ExprString(be.X), "Typeflag")
-				}
-				return false
+				return (isReg(be.Y) && strings.HasSuffix(types.ExprString(be.X), "Typeflag")) || (isReg(be.X) && strings.HasSuffix(types.ExprString(be.Y), "Typeflag"))
 			}, nil)
 			r.Check(guarded, "C15.R4", arch+".(*tarArchive).Next/returns-only-regular-members", rs.Pos(), "a File is returned only for TypeReg/TypeRegA headers", "tarArchive.Next can return a member that is not a regular file (directory, link, device): it becomes a document")
 		}
